@@ -5,6 +5,7 @@ From OxiVerif Require Import Num.I64 DD.ApplyBcdd DD.FamSpec DD.ZbddOps DD.ZbddB
   Mgr.OomGen Mgr.OomBcdd Mgr.OomZbdd Mgr.OomMtbdd.
 From OxiVerif Require Import DD.Quant Mgr.OomBddQ DD.Tdd DD.ApplyTdd Mgr.OomTdd DD.QuantBcdd Mgr.OomBcddQ Mgr.OomZbddV.
 From OxiVerif Require DD.Pick Mgr.OomPick.
+From OxiVerif Require Import DD.IsoCheck.
 Extraction Language OCaml.
 Extraction "model.ml" conv_anchor
   Table.sem_edge Table.wf_b TableExtra.wf_full_b Table.rc_exact_b Table.no_dead_b
@@ -25,4 +26,5 @@ Extraction "model.ml" conv_anchor
   ApplyTdd.td_ok_b OomTdd.trun_nc OomTdd.tcall_ok_b OomTdd.td_var_cap
   OomBcddQ.cq_run_nc OomBcddQ.cqcall_ok_b
   OomZbddV.zv_run_nc OomZbddV.zvcall_ok_b ZbddBool.zconst
-  OomPick.pick_dd_nc OomPick.pick_dd_set_nc OomPick.pcall_ok_b.
+  OomPick.pick_dd_nc OomPick.pick_dd_set_nc OomPick.pcall_ok_b
+  IsoCheck.iso_core.
